@@ -174,6 +174,10 @@ def mutate_and_compare(orig, cp):
     if hasattr(orig, "_children") and orig._children:
         orig._children[0].move((5, 5, 5))
         orig.remove(orig._children[-1])
+    for tr in getattr(orig.style.model3d, "data", []):
+        tr.show = False
+        tr.scale = 7
+        tr.kwargs["x"] = [5, 5]
     if state(cp) != s_cp:
         msgs.append("mutating the original changed the copy")
     s_or = state(orig)
@@ -200,7 +204,7 @@ def run_all(seed, tier):
     rng = np.random.default_rng(seed)
     bad, n, distinct = [], 0, set()
     mk = classes()
-    style_modes = ("untouched", "kwargs-pending", "initialised", "label")
+    style_modes = ("untouched", "kwargs-pending", "initialised", "label", "model3d-trace")
     kw_sets = ({}, {"position": (7, 8, 9)}, {"style_color": "orange"}, {"position": [(1, 1, 1), (2, 2, 2)], "style_color": "green"})
     for cname, parent, smode, kws in itertools.product(mk, (False, True), style_modes, kw_sets):
         skw = {}
@@ -214,6 +218,8 @@ def run_all(seed, tier):
             continue
         if smode == "initialised":
             o.style.color = "#123456"
+        if smode == "model3d-trace":
+            o.style.model3d.add_trace(dict(backend="generic", constructor="scatter3d", kwargs=dict(x=[0, 1], y=[0, 1], z=[0, 2]), show=True, scale=2))
         o._position = rng.normal(size=(2, 3))
         from scipy.spatial.transform import Rotation as R
 
@@ -268,7 +274,7 @@ def main(tier, seed):
     rep.assume("meta-argument: disjoint mutable reach implies that no later mutation of either object is visible to the other; a fixed set of mutations is exercised in addition")
     n, d, bad = run_all(seed, tier)
     rep.standin("run-time contract of copy(): equal state, no parent, disjoint mutable reach, original tree untouched, kwargs only on the copy, same field, later mutations invisible",
-                "13 classes x {no parent, parent} x 4 style states x 4 keyword sets; collection tree depth 3", n, d,
+                "13 classes x {no parent, parent} x 5 style states (incl. a user model3d trace) x 4 keyword sets; collection tree depth 3", n, d,
                 "every combination once; distinct = (class, parent, style state, kwargs)", [dict(cls="Collection", parent=True, style="kwargs-pending", kwargs={"position": [7, 8, 9]})],
                 failures=len(bad), exhaustive=True)
     for case, msgs in bad[:3]:
